@@ -3,16 +3,13 @@ import json, os
 ROOT = os.path.abspath(os.path.join(os.path.dirname(os.path.abspath(__file__)), ".."))
 NOTE = ("Trusted: Lean 4.33 kernel; axioms within {propext, Classical.choice, Quot.sound} (audited per theorem on every run); "
         "the translators in tools/gen.py; the correspondence harness (Rust crate /verif/harness + tools/*.py); ")
-CHECKS = {
-    "C18": dict(
-        text="Lean theorems (option_overrides, header_decides, neither_is_generic, unknown_header_is_error, targetFromStr_ok_iff, "
-             "option_eq_header) over a model of Target::from_str and the dialect decision of compile_query, with the dialect enumeration "
-             "regenerated from dialect.rs on every run; tied to the code by running the full option x header matrix and name mutations "
-             "through the real compiler and the model.",
-        note="the theorem option_eq_header speaks about any SQL generator that is a function of (RQ, chosen dialect); that the real "
-             "generator reads the header only through this decision is validated by the exhaustive matrix run, not proved.",
-        technique="Lean 4 proof over regenerated dialect table + exhaustive option x header correspondence", ref="4/C18"),
-}
+import glob, importlib, sys
+sys.path.insert(0, os.path.join(ROOT, "tools"))
+CHECKS = {}
+for f in sorted(glob.glob(os.path.join(ROOT, "tools", "props", "c[0-9]*.py"))):
+    mod = importlib.import_module("props." + os.path.basename(f)[:-3])
+    if getattr(mod, "MANIFEST", None):
+        CHECKS[os.path.basename(f)[:-3].upper()] = mod.MANIFEST
 NOT_APPLICABLE = {}
 
 def main():
